@@ -14,6 +14,7 @@ class Unit:
     props: tuple = ()             # properties this unit serves
     note: str = ""
     max_paths: int = 20000
+    timeout_ms: int = 0          # per-obligation z3 budget override (0: default)
 
 
 _REG: dict = {}
